@@ -85,7 +85,7 @@ print("Round 9 (ids N<n>-<a|b|c>): aimed at the properties with the fewest seede
 print("all 9 are caught now.\n")
 print("### 13.3 Property-preserving changes by independent sub-agents (`seeded/S<n>-<a..d>/`): must stay silent\n")
 print("Realistic changes that keep all 19 properties to the letter but alter observable behaviour, written as bait for")
-print("over-strict checks (each with a `show_test.go` that demonstrates the behavioural difference; S: round 4, Q: round 6). All 19 quick checks")
+print("over-strict checks (each with a `show_test.go` that demonstrates the behavioural difference; S: round 4, Q: round 6, R: final round, aimed at the monitors of rounds 6-9). All 19 quick checks")
 print("are run against each; all must exit 0.\n")
 print("| id | change | outcome |\n|---|---|---|")
 for m in silent:
